@@ -742,9 +742,9 @@ impl Gen<'_> {
                     (self.r.range(1, 2), big)
                 }
             } else if self.r.pct(50) {
-                (self.r.pick(&[1279u64, 1280, 1281, 1276, 1284]), other)
+                (self.r.pick(&[1279u64, 1280, 1281, 1276, 1284, 1278, 1282, 1279, 1280, 1281]), other)
             } else {
-                (other, self.r.pick(&[479u64, 480, 481, 484, 487, 488, 489, 492, 575, 576, 577, 572, 580]))
+                (other, self.r.pick(&[479u64, 480, 481, 482, 483, 484, 485, 486, 487, 488, 489, 492, 575, 576, 577, 572, 580, 480, 488, 576, 577, 600, 1279, 1280]))
             }
         } else if self.r.pct(6) {
             (self.r.range(1, 64), self.r.range(1, 64))
@@ -859,7 +859,8 @@ impl Gen<'_> {
         }
         op.dataseed = self.r.next();
         op.datamode = match self.r.below(20) {
-            0..=9 => 0,
+            0..=7 => 0,
+            8..=9 => 4, // structured planes: flat, identical rows / columns, row runs
             10..=14 => 1,
             15..=16 => 3,
             _ => {
@@ -1148,6 +1149,212 @@ fn generate_battery(seed: u64, r: &mut Rng) -> RunTrace {
     RunTrace { seed, knobs: Knobs { slots, preempt: 0, heap: 0, iso: 0, repeat: 0, stress: 0, guard: 0, scn: 3 }, pre: Vec::new(), threads, sched: Vec::new() }
 }
 
+/// Native scenario "huge": one image of about 2^20 samples (full-HD frames, frames a few rows or
+/// columns beyond, and degenerate shapes such as 2^19 x 2), constructed - well- or ill-formed -,
+/// read back, now and then converted once, and dropped. Size thresholds of fast paths (parallel
+/// scans, banded kernels) in the hundreds of thousands of samples are out of reach of every other
+/// scenario; the frames are too expensive to appear inside ordinary programmes.
+fn generate_huge(seed: u64, prof: Profile, r: &mut Rng) -> RunTrace {
+    let mut ops: Vec<Op> = Vec::new();
+    let shapes: [(u64, u64); 16] = [
+        (1920, 1080),
+        (1920, 1082),
+        (1920, 1083),
+        (1922, 1081),
+        (2048, 514),
+        (2048, 513),
+        (1 << 19, 2),
+        (1 << 19, 3),
+        (2, 1 << 19),
+        (4, 1 << 18),
+        (1 << 20, 1),
+        (1, 1 << 20),
+        (1024, 1025),
+        (1028, 1022),
+        (1 << 18, 5),
+        (1366, 768),
+    ];
+    let (mut w, mut h) = r.pick(&shapes);
+    if r.pct(40) {
+        w += r.below(4);
+        h += r.below(4);
+    }
+    let float = r.pct(if prof == Profile::Constructors { 25 } else { 35 });
+    let slot;
+    if float {
+        let class = r.range(CL_RGB, CL_HSL);
+        let mut o = Op::blank(Kind::NewFloat);
+        o.which = class;
+        o.slot = class;
+        o.geo[1] = w;
+        o.geo[2] = h;
+        o.geo[0] = match r.below(10) {
+            0 => w * h - 1,
+            1 => w * h + 1,
+            2 => w * (h - 1).max(1),
+            _ => w * h,
+        };
+        o.t = 1 + r.below(N_SUP_TRCS);
+        o.p = 1 + r.below(10);
+        if r.pct(15) {
+            o.t = 0;
+            o.p = 0;
+        }
+        o.dataseed = r.next();
+        o.datamode = if class == CL_HSL { 3 } else { r.pick(&[0u64, 0, 1, 6]) };
+        slot = o.slot;
+        ops.push(o);
+    } else {
+        let ty = if prof == Profile::Constructors { u64::from(r.pct(75)) } else { r.below(2) };
+        let mut o = Op::blank(Kind::NewYuv);
+        o.which = ty;
+        o.slot = ty;
+        let (ssx, ssy) = r.pick(&[(0u64, 0u64), (0, 0), (1, 1), (1, 1), (1, 0), (0, 1), (2, 2)]);
+        let bd = if ty == 0 { 8 } else { r.pick(&[10u64, 10, 12, 9, 15, 16]) };
+        let unspec = |r: &mut Rng, n: u64| if r.pct(20) { 0 } else { 1 + r.below(n) };
+        o.cfg = CfgI { bd, ssx, ssy, full: r.below(2), mc: unspec(r, N_STD_MATS), tc: unspec(r, N_SUP_TRCS), cp: unspec(r, 10) };
+        let ill_geo = r.pct(10);
+        if !ill_geo {
+            w = (w + (1 << ssx) - 1) >> ssx << ssx;
+            h = (h + (1 << ssy) - 1) >> ssy << ssy;
+        }
+        o.geo[0] = w;
+        o.geo[1] = h;
+        for pl in [2usize, 6] {
+            o.geo[pl] = (w >> ssx).max(1);
+            o.geo[pl + 1] = (h >> ssy).max(1);
+            o.geo[pl + 2] = ssx;
+            o.geo[pl + 3] = ssy;
+        }
+        if ill_geo && r.pct(50) {
+            o.geo[7] = (o.geo[7] - 1).max(1);
+        }
+        match r.below(10) {
+            0..=4 => {}
+            5..=6 => {
+                // small padding (kept small: the buffers are large already)
+                for i in 10..16 {
+                    o.geo[i] = r.below(5);
+                }
+                o.padseed = r.next() | 1;
+            }
+            7..=8 => o.consume = 1,
+            _ => {
+                o.consume = 2;
+                for i in 10..16 {
+                    o.geo[i] = r.below(5);
+                }
+                o.padseed = r.next() | 1;
+            }
+        }
+        o.dataseed = r.next();
+        let oob_pct = if prof == Profile::Constructors { 65 } else { 15 };
+        o.datamode = if ty == 1 && bd < 16 && r.pct(oob_pct) { r.pick(&[2u64, 2, 2, 5, 6]) } else { r.pick(&[0u64, 0, 1, 4]) };
+        slot = o.slot;
+        ops.push(o);
+    }
+    let mut rd = Op::blank(Kind::Read);
+    rd.slot = slot;
+    ops.push(rd);
+    let mut dst = None;
+    if r.pct(if prof == Profile::Constructors { 15 } else { 45 }) {
+        // one conversion out of the huge image (by reference where the API has it)
+        let cands: Vec<u64> = (0..28u64).filter(|i| CONVS[*i as usize].src == slot_class(slot) && (CONVS[*i as usize].by_ref || slot_class(slot) > CL_Y16)).collect();
+        if !cands.is_empty() {
+            let mut c = Op::blank(Kind::Conv);
+            c.which = r.pick(&cands);
+            c.src = slot;
+            c.slot = CONVS[c.which as usize].dst + 6;
+            c.cfg = CfgI { bd: if CONVS[c.which as usize].dst == CL_Y8 { 8 } else { r.pick(&[10u64, 12, 16]) }, ssx: r.below(2), ssy: r.below(2), full: r.below(2), mc: 1 + r.below(N_STD_MATS), tc: r.below(N_SUP_TRCS + 1), cp: r.below(11) };
+            c.t = r.below(N_SUP_TRCS + 1);
+            c.p = r.below(11);
+            dst = Some(c.slot);
+            ops.push(c);
+        }
+    }
+    for s in [Some(slot), dst].into_iter().flatten() {
+        let mut d = Op::blank(Kind::DropSlot);
+        d.slot = s;
+        ops.push(d);
+    }
+    let knobs = Knobs { slots: 12, preempt: 0, heap: if r.pct(50) { r.range(1, 255) } else { 0 }, iso: 0, repeat: r.below(2), stress: 0, guard: u64::from(r.pct(30)) * r.range(1, 2), scn: 6 };
+    RunTrace { seed, knobs, pre: Vec::new(), threads: vec![ops], sched: Vec::new() }
+}
+
+/// Miri workload for C07's second sentence: one thread, images that hold every special float
+/// value in every channel (NaN with and without payload, infinities, +-3e38, MAX, subnormals,
+/// signed zeros, range boundaries), pushed once through every transfer curve in both directions,
+/// through XYB and HSL both ways and through the quantiser of every float -> YUV path. A
+/// `to_int_unchecked` (or any other unchecked numeric step) that such a value reaches is UB that
+/// no native run can observe - the result is merely some integer - and that Miri reports.
+fn generate_float_battery(seed: u64, r: &mut Rng) -> RunTrace {
+    let mut ops: Vec<Op> = Vec::new();
+    let special = |r: &mut Rng, class: u64, t: u64, p: u64| {
+        let mut o = Op::blank(Kind::NewFloat);
+        o.which = class;
+        o.slot = class;
+        // 22 pixels hold the whole table; now and then more, so that block tails differ and
+        // whole blocks of a chunked kernel exist
+        let n = 22 + r.pick(&[0u64, 0, 1, 3, 10, 42, 128]);
+        o.geo = [0; 16];
+        o.geo[0] = n;
+        o.geo[1] = n;
+        o.geo[2] = 1;
+        o.t = t;
+        o.p = p;
+        o.dataseed = r.next();
+        o.datamode = 8;
+        o
+    };
+    let conv = |which: u64, slot_off: u64| {
+        let mut c = Op::blank(Kind::Conv);
+        c.which = which;
+        c.src = CONVS[which as usize].src;
+        c.slot = CONVS[which as usize].dst + slot_off;
+        c
+    };
+    let first = r.below(N_SUP_TRCS);
+    for k in 0..N_SUP_TRCS {
+        let t = 1 + (first + k) % N_SUP_TRCS;
+        let p = 1 + r.below(10);
+        // gamma -> linear
+        ops.push(special(r, CL_RGB, t, p));
+        ops.push(conv(14, 6));
+        // linear -> gamma
+        ops.push(special(r, CL_LIN, 0, 0));
+        let mut c = conv(20, 6);
+        c.t = t;
+        c.p = p;
+        ops.push(c);
+    }
+    ops.push(special(r, CL_LIN, 0, 0));
+    ops.push(conv(18, 6));
+    ops.push(special(r, CL_XYB, 0, 0));
+    ops.push(conv(23, 6));
+    ops.push(special(r, CL_LIN, 0, 0));
+    ops.push(conv(19, 6));
+    ops.push(special(r, CL_HSL, 0, 0));
+    ops.push(conv(27, 6));
+    // the quantisers: by reference and by value, both sample types, from every float type
+    for &(src, which) in &[(CL_RGB, 6u64), (CL_RGB, 7), (CL_RGB, 16), (CL_RGB, 17), (CL_LIN, 21), (CL_LIN, 22), (CL_XYB, 25), (CL_XYB, 26)] {
+        let ty = CONVS[which as usize].dst;
+        let bd = if ty == 0 { 8 } else { r.pick(&[8u64, 10, 12, 16]) };
+        let (ssx, ssy) = r.pick(&[(0u64, 0u64), (0, 0), (1, 0), (0, 1)]);
+        let cfg = CfgI { bd, ssx, ssy, full: r.below(2), mc: 1 + r.below(N_STD_MATS), tc: 1 + r.below(N_SUP_TRCS), cp: 1 + r.below(10) };
+        let mut o = special(r, src, cfg.tc, cfg.cp);
+        // rows wide enough for block kernels (a block of 128 or 256 samples that is quantised
+        // "branch-free" exists only in rows at least that wide); even where subsampling wants it
+        o.geo[1] = r.pick(&[22u64, 150, 150, 280, 280, 530, 1300]);
+        o.geo[2] = 1 << ssy;
+        o.geo[0] = o.geo[1] * o.geo[2];
+        ops.push(o);
+        let mut c = conv(which, 6);
+        c.cfg = cfg;
+        ops.push(c);
+    }
+    RunTrace { seed, knobs: Knobs { slots: 12, preempt: 0, heap: 0, iso: 0, repeat: 0, stress: 0, guard: 0, scn: 5 }, pre: Vec::new(), threads: vec![ops], sched: Vec::new() }
+}
+
 /// Miri workload for C12: a "clone family". One float image and a clone of it sit in two slots;
 /// 2-3 threads keep cloning either into either slot, writing through `data_mut`, reading back and
 /// converting by value - the operations between which any buffer sharing a change introduces
@@ -1208,12 +1415,33 @@ fn generate_clone_family(seed: u64, r: &mut Rng) -> RunTrace {
 
 /// Generates the explicit programme of one run from its seed.
 pub fn generate(seed: u64, prof: Profile, miri: bool) -> RunTrace {
+    generate_kind(seed, prof, miri, None)
+}
+
+/// Miri workloads: the scenario kind is a function of the workload number (`kind`, 0..5) so that
+/// every tier runs every kind, however few workloads it can afford.
+pub fn generate_kind(seed: u64, prof: Profile, miri: bool, kind: Option<u64>) -> RunTrace {
+    if !miri {
+        // drawn from a stream of its own so that the other scenarios keep their programmes
+        let one_in = if prof == Profile::Constructors { 300 } else { 1200 };
+        if crate::rng::mix(seed, 0x4855_4745) % one_in == 0 {
+            let mut r = Rng::new(seed ^ 0x4855_4745_0000);
+            return generate_huge(seed, prof, &mut r);
+        }
+    }
     let mut r = Rng::new(seed ^ 0xd51_0000_0000 ^ (prof as u64) << 56);
-    if miri && prof == Profile::Constructors && r.pct(75) {
+    let roll = r.below(5);
+    let kind = kind.unwrap_or(roll) % 5;
+    if miri && prof == Profile::Constructors && kind != 3 {
         return generate_clone_family(seed, &mut r);
     }
-    if miri && prof == Profile::Safety && r.pct(50) {
-        return generate_battery(seed, &mut r);
+    if miri && prof == Profile::Safety {
+        // two in five stay random mixes
+        match kind {
+            1 => return generate_float_battery(seed, &mut r),
+            0 | 3 => return generate_battery(seed, &mut r),
+            _ => {}
+        }
     }
     let slots = if miri { 6 } else { r.range(6, 12) };
     let maxdim = if miri {
